@@ -1,28 +1,185 @@
-// Package c14 decides property C14 (see /verif/DESIGN.md §5).
+// Package c14 decides property C14 (see /verif/DESIGN.md §5): pipeline buses
+// deliver each item once, in order, a cycle later, within capacity.
+//
+// Deterministic simulation of ONE real comp.BufferedBus / comp.SimpleBus with
+// seeded producer, consumer and clock tasks and the fault operations Clean,
+// DeleteLast and Revert placed inside the flow; oracle = FIFO-with-latency
+// reference model compared after every operation plus exactly-once / order /
+// latency / capacity accounting over the history.
 package c14
 
 import (
 	"encoding/json"
+	"fmt"
 
 	"verifsim/internal/api"
+	"verifsim/internal/findings"
+	"verifsim/internal/rng"
 )
 
-type check struct{}
+type check struct{ f factory }
 
 // New returns the C14 check.
-func New() api.Check { return check{} }
+func New() api.Check { return check{f: realFactory()} }
 
 func (check) ID() string { return "C14" }
 
 func (check) Runs(tier string) int {
 	if tier == "thorough" {
-		return 100000
+		return 5000000
 	}
-	return 1000
+	return 50000
 }
 
-func (check) Run(b api.Batch) *api.Result { return api.NewResult() }
+const (
+	maxFreshPerClass = 4 // shrunk and written out per class and batch
+	maxKnownPerBatch = 1 // tagged violations emitted per known finding, by the batch that starts at index 0
+)
 
-func (check) Replay(payload json.RawMessage) (*api.Violation, error) { return nil, nil }
+type sample struct {
+	Run     int      `json:"run_index"`
+	History *History `json:"history"`
+	Summary string   `json:"summary"`
+}
 
-func (check) Describe() api.Description { return api.Description{Level: "exploration"} }
+func (c check) Run(b api.Batch) *api.Result {
+	res := api.NewResult()
+	kf := findings.Default()
+	opts := execOpts{openKF: func(id string) bool { return kf.IsOpen("C14", id) }}
+	emitted := map[string]int{}
+	for i := b.From; i < b.To; i++ {
+		h := generate(rng.New(rng.Derive(b.Seed, uint64(i))))
+		out := execute(h, c.f, opts)
+		c.account(res, h, out)
+		if out.st.nontrivial() && len(res.Samples) < 3 {
+			s := h.clone()
+			annotate(s, c.f, opts)
+			res.AddSample(sample{Run: i, History: s, Summary: fmt.Sprintf("%d ops, %d cycles, %d delivered, back-pressure %d+%d, faults clean=%d dellast=%d revert=%d flush=%d pick=%d",
+				len(h.Ops), out.st.cycles, out.st.delivered, out.st.addRefused, out.st.connectBlocked,
+				out.st.faultClean, out.st.faultDelLast, out.st.faultRevert, out.st.faultFlush, out.st.pickHit)}, 3)
+		}
+		v := out.reported()
+		if v == nil {
+			continue
+		}
+		key := v.Class + "/" + v.KF
+		if v.KF != "" {
+			res.Count("histories_hitting_known_finding:"+v.KF, 1)
+			// one tagged violation per run is evidence enough (the driver caps
+			// the merged violation list; fresh ones must never be crowded out)
+			if b.From != 0 || emitted[key] >= maxKnownPerBatch {
+				continue
+			}
+		} else {
+			res.Count("violating_histories:"+v.Class, 1)
+			if emitted[key] >= maxFreshPerClass {
+				res.Count("violations_not_written_out", 1)
+				continue
+			}
+		}
+		emitted[key]++
+		small := shrink(h, c.f, opts, v)
+		sv := execute(small, c.f, opts).reported()
+		if !sameVerdict(sv, v) { // cannot happen; keep the original if it does
+			small = h.clone()
+			annotate(small, c.f, opts)
+			sv = v
+		}
+		payload, _ := json.Marshal(small)
+		res.Violations = append(res.Violations, api.Violation{
+			Property: "C14", Class: sv.Class, Detail: sv.Detail + fmt.Sprintf(" [%s q=%d b=%d, %d ops]", small.Kind, small.Q, small.B, len(small.Ops)),
+			RunIndex: i, Seed: b.Seed, Replay: payload, KnownFinding: sv.KF,
+		})
+	}
+	return res
+}
+
+var opNames = func() [16]string {
+	var n [16]string
+	for k, c := range opCodes {
+		n[c] = k
+	}
+	return n
+}()
+
+func (c check) account(res *api.Result, h *History, out *outcome) {
+	st := &out.st
+	res.Evaluations++
+	res.SimCycles += st.cycles
+	for code, n := range st.ops {
+		if n > 0 && opNames[code] != "" {
+			res.Count("ops:"+opNames[code], n)
+		}
+	}
+	res.Count("backpressure:add_refused", st.addRefused)
+	res.Count("backpressure:connect_blocked_by_full_output", st.connectBlocked)
+	res.Count("fault:clean", st.faultClean)
+	res.Count("fault:flush", st.faultFlush)
+	res.Count("fault:dellast", st.faultDelLast)
+	res.Count("fault:revert", st.faultRevert)
+	res.Count("fault:no_effect", st.faultNoop)
+	res.Count("pick:hit", st.pickHit)
+	res.Count("pick:miss", st.pickMiss)
+	res.Count("items_delivered", st.delivered)
+	if h.Kind == kindSimple {
+		res.Count("histories:simple", 1)
+	} else {
+		res.Count(fmt.Sprintf("histories:buffered:q%d:b%d", h.Q, h.B), 1)
+	}
+	if st.drained {
+		res.Count("histories_drained", 1)
+	}
+	if st.waited {
+		res.Count("histories_with_item_waiting_under_backpressure", 1)
+	}
+	if st.nontrivial() {
+		res.Count("histories_nontrivial", 1)
+		res.Seen(st.hash)
+	}
+}
+
+func (c check) Replay(payload json.RawMessage) (*api.Violation, error) {
+	var h History
+	if err := json.Unmarshal(payload, &h); err != nil {
+		return nil, err
+	}
+	if h.Kind != kindBuffered && h.Kind != kindSimple {
+		return nil, fmt.Errorf("unknown bus kind %q", h.Kind)
+	}
+	if h.Kind == kindBuffered && (h.Q < 1 || h.B < 1) {
+		return nil, fmt.Errorf("capacities must be >= 1")
+	}
+	kf := findings.Default()
+	opts := execOpts{openKF: func(id string) bool { return kf.IsOpen("C14", id) }}
+	h.Trace = nil
+	v := execute(&h, c.f, opts).reported()
+	if v == nil {
+		return nil, nil
+	}
+	return &api.Violation{Property: "C14", Class: v.Class, Detail: v.Detail, Replay: payload, KnownFinding: v.KF}, nil
+}
+
+func (check) Describe() api.Description {
+	return api.Description{
+		Level: "exploration",
+		Rule: "one run index = one history of <= 80 operations on one bus (7/8 BufferedBus with queueLength, bufferLength drawn independently from 1..4, 1-3 producers, 1-4 consumers; 1/8 SimpleBus), followed by a drain. " +
+			"A history counts as non-trivial when at least one item waited >= 1 cycle under back-pressure (a producer refused by CanAdd/RemainingToAdd got its item in only in a later cycle, or a Connect left a ready item on the input side because the output side was full) " +
+			"AND at least one fault operation took effect (Clean/Flush/DeleteLast removed something, Revert put an item back) or a Pick delivered an item. " +
+			"Distinct = hash over (bus kind, capacities, every operation with its arguments and its outcome: ids added, item delivered, items moved by Connect, items removed).",
+		Real: []string{"comp.BufferedBus[T] (NewBufferedBus, Add, Revert, DeleteLast, Get, Pick, Exists, CanGet, CanAdd, RemainingToAdd, PendingRead, IsEmpty, Connect, Clean, InLength, OutLength)",
+			"comp.SimpleBus[T] (Add, Get, CanAdd, IsEmpty, Flush, Clean)"},
+		Stub: []string{"fetch/decode/control/execute/write units: replaced by seeded producer tasks (CanAdd then Add; or CanAdd, RemainingToAdd, then that many Adds), consumer tasks (Get, Pick(id%m==r), Exists, CanGet, PendingRead, IsEmpty) and a clock task (Connect(cycle) first in every cycle, as CPU.Run)",
+			"CPU.flush / fetch-unit clean: replaced by Clean (Flush on SimpleBus) at seeded points"},
+		Assumptions: []string{
+			"Protocol pinned from the callers (proc/mvp4 ... mvp8-0): CPU.Run calls Connect(cycle) on every bus before any unit runs, cycle numbers never decrease (they may repeat or skip: `Connect(cycle+1)` and `cycle += latency.Flush` in the flush path); a unit's CanAdd+Add, or CanAdd+RemainingToAdd+n*Add (control unit MVP-6.0), is one atomic step; Add is always called with the cycle of the last Connect.",
+			"Units of one bus may run in any order inside a cycle (the statement quantifies over all interleavings); in CPU.Run the producer of a bus always runs before its consumers.",
+			"Revert and DeleteLast have NO caller in this tree (grep over /repo, all 10 commits): their reading is taken from bus.go and the statement. Revert(item, c) is issued only by the consumer that took that item in cycle c; the item becomes visible again at the next Connect(>= c), behind what is already visible and in front of everything still on the input side. A reverted item does not count against the input capacity (there is no CanRevert), but CanAdd must then report no room.",
+			"DeleteLast removes the most recently added item that is still on the input side; it is not issued while the last entry of the input side is a reverted item (left open by the statement).",
+			"Visibility has a lower bound (not before a Connect with cycle >= c+1) from the statement; the reference model also expects the item AT that Connect if the output side has room (title: 'a cycle later'); a later arrival is reported as class late-delivery, never as lost-item.",
+			"RemainingToAdd is compared clamped at 0 (its value for an over-full input side is left open).",
+			"SimpleBus as in MVP-4/5: one producer, one consumer, one Get = one cycle; an item added after Get number n is delivered by Get n+2 at the earliest (never by the Get that directly follows the Add).",
+			"The visible items are read in order through Exists with a never-matching, recording predicate after every operation (pure observation).",
+		},
+		FaultKinds: []string{"Clean", "Flush (SimpleBus)", "DeleteLast", "Revert (same cycle, by the taking consumer)", "Pick out of order", "back-pressure: slow consumers / full output side / full input side", "repeated and skipped Connect cycle numbers"},
+	}
+}
